@@ -112,7 +112,7 @@ def execute(scn, L):
                 return out
             elif name == 'add_change':
                 shape.append(0)
-            elif name == 'add_file':
+            elif name in ('add_file', 'clone_file'):
                 shape[op.get('change', 0)] += 1
             elif name == 'list_edit':
                 out.probe('list_edited_in_place')
@@ -225,6 +225,27 @@ def execute(scn, L):
     # original tree untouched by serialising / parsing
     if domworld.snap_tree(tree) != snap:
         out.violate('C05.original-mutated', 'to_bytes', None)
+
+    # the parsed copy is the caller's: editing it changes nothing about
+    # what a second parse of the same bytes gives
+    try:
+        parsed.meta = {'edited': True}
+
+        if parsed.changes:
+            del parsed.changes[-1]
+
+        again = L.DiffX.from_bytes(data) if via != 'subclass' else \
+            type('DiffX', (L.DiffX,), {}).from_bytes(data)
+        d2 = domworld.first_diff(want, domworld.snap_tree(again))
+
+        if d2 is not None:
+            out.violate('C05.tree-differs', 'second-parse:' +
+                        domworld.field_class(d2), {'path': d2})
+            return out
+    except Exception as e:
+        out.violate('C05.own-output-rejected', 'second-parse:%s' %
+                    type(e).__name__, {'exc': exc_summary(e, L)})
+        return out
 
     sect_states(out, snap)
     nd = 0
